@@ -230,6 +230,11 @@ def _rule_3_native_ops(ctx, only_ops=None):
     ctx.floor(2 if only_ops is None else 1, 'partial native operations in the arithmetic dunders')
 
 
+# texts that look a little like numbers, dates, percentages, booleans: operands of every scalar type never crash an operator
+ODD_TEXTS = ['n/a%', '%', '5%', '5%%', '1e', '1e5e', '1_000', 'inf', '-inf', 'nan', ' 7 ', '--1', '0x10', '1,5', '$5', '1/2', '1:30', 'abc %', 'e', '.',
+             '-', '+', 'true ', 'T', '1 2', '\u0663', '1e999', '0' * 400]
+
+
 def rule_3(ctx, only_ops=None):
     """The operators as the evaluator calls them (registered objects, value classes as written; numpy.power on objects = the
     class's own **) on every ordered pair of scalar operand kinds incl. the hazardous ones (zero, negative, huge, non-numeric
@@ -251,8 +256,14 @@ def rule_3(ctx, only_ops=None):
     for name, sym in ops:
         f = V.registered(ctx, name)
         raised = {}
-        for la, a in vals:
-            for lb, b in vals:
+        pairs = [((la, a), (lb, b)) for la, a in vals for lb, b in vals]
+        partners = [vals[0], vals[9], vals[13], vals[11]]          # 3, "x", blank, TRUE
+        odd = ODD_TEXTS if ctx.tier != 'quick' else ODD_TEXTS[::2]
+        for t in odd:
+            for pt in partners:
+                pairs += [((f'"{t}"', V.text(t)), pt), (pt, (f'"{t}"', V.text(t)))]
+        for (la, a), (lb, b) in pairs:
+            if True:
                 out = V.call(ctx, name, [a, b], models=models)
                 bad = out.end == 'raise' or (out.end == 'return' and isinstance(out.value, complex))
                 if bad:
@@ -545,6 +556,41 @@ def rule_7(ctx):
     ctx.floor(60, 'scalar registered functions')
 
 
+def rule_8(ctx):
+    """A whole witness workbook, interpreted as written: each of the seven error codes written as a literal, produced by a
+    formula or stored in a cell is that error value; it propagates through operators (leftmost first), scalar functions and
+    dependent cells; the error inspectors report it."""
+    from . import workbook as W
+    from . import scenarios as S
+    anchor = ctx.mod('evaluator').func('Evaluator.evaluate')
+    codes = ['#NULL!', '#DIV/0!', '#VALUE!', '#REF!', '#NAME?', '#NUM!', '#N/A']
+    cells = {}
+    want = {}
+    for i, code in enumerate(codes, start=1):
+        other = codes[i % 7]
+        cells.update({f'A{i}': f'={code}', f'B{i}': f'=A{i}+1', f'C{i}': f'=1-{code}', f'D{i}': f'=ABS({code})*2', f'E{i}': f'=ISERROR({code})',
+                      f'F{i}': f'={code}*{other}', f'G{i}': f'=IF(ISERR(A{i}),1,2)', f'H{i}': f'=ROUND(B{i},1)+3', f'I{i}': f'=ISNA(C{i})',
+                      f'J{i}': f'={other}-A{i}', f'K{i}': f'=IF(ISERROR(B{i}),"caught",B{i})', f'L{i}': f'=-A{i}', f'M{i}': f'=A{i}>=1'})
+        err = ('error', code)
+        want.update({f'A{i}': err, f'B{i}': err, f'C{i}': err, f'D{i}': err, f'E{i}': ('Boolean', True), f'F{i}': err,
+                     f'G{i}': ('Number', 2 if code == '#N/A' else 1), f'H{i}': err, f'I{i}': ('Boolean', code == '#N/A'), f'J{i}': ('error', other),
+                     f'K{i}': ('Text', 'caught'), f'L{i}': err, f'M{i}': err})
+    wb = W.Workbook(ctx, cells)
+    n = 0
+    for a, w in want.items():
+        got = wb.value('Sheet1!' + a)
+        if isinstance(got, tuple) and got and got[0] == 'error-class':
+            got = ('error', W.error_code(ctx, got[1]))
+        if isinstance(got, bool):
+            got = ('Boolean', got)          # the inspectors answer with a native truth value
+        n += 1
+        ctx.expect(got == w, anchor, f'error values in a workbook: {cells[a]}' + (f' with A{a[1:]} = {cells["A" + a[1:]]}' if 'A' + a[1:] in cells[a] else ''),
+                   f'{a} = {cells[a]} evaluates to {got!r}, expected {w!r}: an Excel error is a value - written as a literal, stored in a cell or '
+                   'produced by a formula it propagates (leftmost first) through operators, functions and dependent cells, and only the inspectors '
+                   'and IFERROR look at it')
+    ctx.floor(90, 'error cells')
+
+
 RULES = [
     ('C07.1', 'registration discipline', rule_1),
     ('C07.2', 'no error value reaches a swallowing handler', rule_2),
@@ -553,4 +599,5 @@ RULES = [
     ('C07.5', 'validate_args contract', rule_5),
     ('C07.6', 'operator nodes evaluate every operand and apply the operator function to the values', rule_6),
     ('C07.7', 'error arguments of scalar functions are returned (through the registered wrapper), leftmost first', rule_7),
+    ('C07.8', 'whole witness workbook: the seven error codes as literals, cell values and results', rule_8),
 ]
